@@ -1,12 +1,320 @@
-//! C23 — monitor not built yet (stub so that the registry is complete).
+//! C23 — results do not depend on hashing or scheduling.
+//!
+//! Each generated input is analysed several times by the real CLI in fresh processes (fresh
+//! `RandomState` seeds), alternately pinned to one CPU and free to use all CPUs, with the same
+//! `--partial` list in shuffled order. The `--json --quiet` output must be byte-identical.
+
+use crate::c21::*;
 use crate::core::*;
+use crate::prng::{hash_str, mix, Rng};
+use serde_json::{json, Value};
 
 pub fn info() -> CheckInfo {
     CheckInfo {
         id: "C23",
-        rule: "(monitor not built yet)",
-        assumptions: &[],
-        run: |_cfg| Report::new(),
-        replay: |_cfg, _case| Report::new(),
+        rule: "generated inputs biased towards order sensitivity (jumps into blocks of other functions so that blocks are duplicated per function, blocks listed in two functions, many extern symbols, several allocation/taint sources per function, loops with unknown bounds (widening), Ghidra-style reuse of few temporary names, many TIDs with a common prefix) analysed 6 (quick) / 24 (thorough) times in fresh processes: odd runs pinned to a single CPU with taskset, even runs unpinned; selection = default, all checks, or a random --partial list whose order is reshuffled for every run. Oracle: exit status and --json --quiet stdout of every run byte-identical to the first run. non-trivial = all runs finished, the output contains >= 1 warning; distinct = hash of (P-Code JSON, selection)",
+        assumptions: &[
+            "the hash seeds of a process cannot be pinned from outside: a violation is a witnessed difference, its replay re-runs the stored input n times and reports 'k of n runs differ'; absence of a difference in n runs is not a proof of determinism",
+            "runs that hit the 60 s watchdog make the input inconclusive",
+        ],
+        run,
+        replay,
     }
+}
+
+fn gen_opts(rng: &mut Rng) -> GenOpts {
+    let kind = match rng.below(10) {
+        0..=4 => ElfKind::Exec,
+        5..=7 => ElfKind::Pie,
+        _ => ElfKind::Lkm,
+    };
+    GenOpts { kind, order_bias: true, trigger_bias: rng.bool(), debug_sections: rng.chance(1, 5) }
+}
+
+/// The selection of one input: None = default; Some(list) = --partial with these names (order reshuffled per run).
+fn pick_selection(rng: &mut Rng, env: &CliEnv, lkm: bool) -> Option<Vec<String>> {
+    let names: Vec<String> = if lkm {
+        env.names().into_iter().filter(|n| cwe_checker_lib::checkers::MODULES_LKM.contains(&n.as_str())).collect()
+    } else {
+        env.names()
+    };
+    match rng.below(4) {
+        0 => None,
+        1 | 2 => Some(names),
+        _ => {
+            let mut v: Vec<String> = names.iter().filter(|_| rng.bool()).cloned().collect();
+            for h in ["CWE119", "CWE416", "CWE476", "CWE252", "CWE78", "Memory"] {
+                if rng.chance(1, 3) && names.iter().any(|n| n == h) && !v.iter().any(|n| n == h) {
+                    v.push(h.to_string());
+                }
+            }
+            if v.is_empty() {
+                v.push(names[0].clone());
+            }
+            Some(v)
+        }
+    }
+}
+
+struct Outcome {
+    /// names of all warnings in the symmetric differences (first run vs. every differing run)
+    diff_names: std::collections::BTreeSet<String>,
+    /// a difference that is not a set difference of well-formed warnings (exit status, order, non-JSON)
+    other_diff: bool,
+    differing: usize,
+    completed: usize,
+    first_diff: Option<String>,
+    warnings_in_first: usize,
+}
+
+/// Describe the first difference between two outputs (by warning).
+fn describe_diff(a: &[u8], b: &[u8]) -> String {
+    let pa: Option<Vec<Value>> = serde_json::from_slice::<Value>(a).ok().and_then(|v| v.as_array().cloned());
+    let pb: Option<Vec<Value>> = serde_json::from_slice::<Value>(b).ok().and_then(|v| v.as_array().cloned());
+    match (pa, pb) {
+        (Some(x), Some(y)) => {
+            let only_a: Vec<String> = x.iter().filter(|w| !y.contains(w)).take(2).map(|w| w.to_string().chars().take(300).collect()).collect();
+            let only_b: Vec<String> = y.iter().filter(|w| !x.contains(w)).take(2).map(|w| w.to_string().chars().take(300).collect()).collect();
+            if only_a.is_empty() && only_b.is_empty() {
+                format!("same {} warnings in a different order / multiplicity ({} vs {})", x.len(), x.len(), y.len())
+            } else {
+                format!("{} vs {} warnings; only in first run: {only_a:?}; only in other run: {only_b:?}", x.len(), y.len())
+            }
+        }
+        _ => format!("outputs of {} and {} bytes, at least one is not a JSON array", a.len(), b.len()),
+    }
+}
+
+/// Names of the warnings that are in exactly one of the two outputs (None: an output is not a JSON array).
+fn sym_diff_names(a: &[u8], b: &[u8]) -> Option<Vec<String>> {
+    let pa = serde_json::from_slice::<Value>(a).ok()?.as_array()?.clone();
+    let pb = serde_json::from_slice::<Value>(b).ok()?.as_array()?.clone();
+    let mut names = Vec::new();
+    for w in pa.iter().filter(|w| !pb.contains(w)).chain(pb.iter().filter(|w| !pa.contains(w))) {
+        names.push(w["name"].as_str().unwrap_or("?").to_string());
+    }
+    Some(names)
+}
+
+/// Known-finding key: expression propagation substitutes the entries of a HashMap one after the other
+/// (`propagate_input_expressions`, Load/Store/jump arms); when an entry's expression mentions a variable that
+/// is itself a key (possible once an expression reaches recursion depth 10) the resulting Store value is
+/// either `f(B)` or `f(g(..))` depending on the iteration order, and CWE190's syntactic
+/// "block contains a multiplication" test sees the multiplication only in the second form.
+pub const KNOWN_EXPRPROP_CWE190: &str = "c23-expression-propagation-hash-order-reaches-cwe190";
+
+/// Discriminator: every warning that is present in one run and absent in another is a CWE190 warning
+/// and there is no other kind of difference (exit status, order, malformed output).
+fn is_known_cwe190(oc: &Outcome) -> bool {
+    oc.differing > 0 && !oc.other_diff && oc.diff_names.len() == 1 && oc.diff_names.contains("CWE190")
+}
+
+fn class_of(oc: &Outcome, fallback: &str) -> String {
+    if oc.other_diff || oc.diff_names.is_empty() {
+        fallback.to_string()
+    } else {
+        oc.diff_names.iter().cloned().collect::<Vec<_>>().join("+")
+    }
+}
+
+fn diff_class(a: &[u8], b: &[u8]) -> String {
+    let names = |x: &[u8]| -> Option<Vec<Value>> { serde_json::from_slice::<Value>(x).ok().and_then(|v| v.as_array().cloned()) };
+    match (names(a), names(b)) {
+        (Some(x), Some(y)) => {
+            let d = x.iter().find(|w| !y.contains(w)).or_else(|| y.iter().find(|w| !x.contains(w)));
+            match d {
+                Some(w) => w["name"].as_str().unwrap_or("?").to_string(),
+                None => "order".to_string(),
+            }
+        }
+        _ => "not-json".to_string(),
+    }
+}
+
+#[allow(clippy::too_many_arguments)]
+fn repeat_runs(env: &CliEnv, files: &InputFiles, selection: &Option<Vec<String>>, n: usize, cpu: usize, stop_at: Option<(&Cfg, f64)>, rng: &mut Rng, rep: &mut Report) -> (Outcome, Option<(String, String)>) {
+    let mut first: Option<(Option<i32>, Vec<u8>)> = None;
+    let mut oc = Outcome { diff_names: Default::default(), other_diff: false, differing: 0, completed: 0, first_diff: None, warnings_in_first: 0 };
+    let mut sig: Option<(String, String)> = None;
+    for j in 0..n {
+        if let Some((cfg, limit)) = stop_at {
+            if j >= 2 && cfg.elapsed_s() > limit {
+                // out of wall-clock budget: judge what was run, the input does not count as a completed case
+                rep.obs("input-abandoned-at-hard-deadline");
+                break;
+            }
+        }
+        let mut args: Vec<String> = Vec::new();
+        if let Some(list) = selection {
+            let mut l = list.clone();
+            if j > 0 {
+                rng.shuffle(&mut l);
+            }
+            args = vec!["--partial".into(), l.join(",")];
+        }
+        let opts = RunOpts { cpu: if j % 2 == 1 { Some(cpu) } else { None }, ..Default::default() };
+        let out = run_cli(env, files, &args, &opts);
+        rep.eval();
+        if out.timed_out || out.spawn_error.is_some() {
+            rep.inconclusive(if out.timed_out { "watchdog" } else { "spawn-error" });
+            continue;
+        }
+        oc.completed += 1;
+        match &first {
+            None => {
+                oc.warnings_in_first = serde_json::from_slice::<Value>(&out.stdout).ok().and_then(|v| v.as_array().map(|a| a.len())).unwrap_or(0);
+                first = Some((out.exit, out.stdout));
+            }
+            Some((exit0, out0)) => {
+                if *exit0 != out.exit || *out0 != out.stdout {
+                    oc.differing += 1;
+                    match (*exit0 == out.exit, sym_diff_names(out0, &out.stdout)) {
+                        (true, Some(names)) if !names.is_empty() => oc.diff_names.extend(names),
+                        _ => oc.other_diff = true,
+                    }
+                    if oc.first_diff.is_none() {
+                        let d = if *exit0 != out.exit { format!("exit status {exit0:?} vs {:?}", out.exit) } else { describe_diff(out0, &out.stdout) };
+                        oc.first_diff = Some(format!("run #{j} ({}) differs from run #0: {d}", if j % 2 == 1 { "pinned to one CPU" } else { "unpinned" }));
+                        let class = if *exit0 != out.exit { "exit-status".to_string() } else { diff_class(out0, &out.stdout) };
+                        sig = Some((class, args.join(" ")));
+                    }
+                }
+            }
+        }
+    }
+    (oc, sig)
+}
+
+fn check_input(cfg: &Cfg, env: &CliEnv, inp: &Input, n: usize, cpu: usize, ir_probe: bool, rng: &mut Rng, rep: &mut Report) {
+    let hard = cfg.tier.pick(50.0, 800.0);
+    let files = match write_input(&inp.pcode, &inp.elf) {
+        Ok(f) => f,
+        Err(e) => {
+            rep.inconclusive(&format!("harness:{e}"));
+            return;
+        }
+    };
+    let selection = pick_selection(rng, env, inp.kind == ElfKind::Lkm);
+    let (oc, sig) = repeat_runs(env, &files, &selection, n, cpu, Some((cfg, hard)), rng, rep);
+    let mode = match &selection {
+        None => "default",
+        Some(l) if l.len() >= env.modules.len() => "all",
+        Some(_) => "partial",
+    };
+    rep.obs(&format!("input:{mode}:{:?}", inp.kind));
+    if oc.differing > 0 {
+        let (class, _) = sig.unwrap_or_default();
+        let class = class_of(&oc, &class);
+        let mut case = input_case(inp);
+        case["selection"] = json!(selection);
+        case["runs"] = json!(n.max(12));
+        rep.violation(
+            format!("output-differs:{class}"),
+            if is_known_cwe190(&oc) { Some(KNOWN_EXPRPROP_CWE190) } else { None },
+            format!("{} of {} runs printed an output different from the first run ({mode} selection). {}", oc.differing, oc.completed, oc.first_diff.unwrap_or_default()),
+            case,
+            inp.pcode.len() as u64,
+        );
+    } else if oc.completed == n && oc.warnings_in_first > 0 {
+        let sel = selection.as_ref().map(|l| {
+            let mut s = l.clone();
+            s.sort();
+            s.join(",")
+        });
+        rep.nontrivial(mix(hash_str(&inp.pcode), hash_str(&sel.unwrap_or_default())));
+        if rep.wants_sample() {
+            rep.sample(json!({"kind": format!("{:?}", inp.kind), "functions": inp.n_subs, "blocks": inp.n_blocks, "loops": inp.loops, "features": inp.features, "selection": selection, "runs": n, "identical_outputs": true, "warnings": oc.warnings_in_first}));
+        }
+    }
+    // diagnostic (no verdict): is the optimised IR itself identical across processes?
+    if ir_probe && cfg.elapsed_s() < hard - 8.0 {
+        let mut outs: Vec<Vec<u8>> = Vec::new();
+        for _ in 0..3 {
+            let o = run_cli(env, &files, &["--debug".to_string(), "ir-opt".to_string()], &RunOpts::default());
+            if !o.timed_out && o.spawn_error.is_none() {
+                outs.push(o.stdout);
+            }
+        }
+        if outs.len() == 3 {
+            if outs[0] == outs[1] && outs[1] == outs[2] {
+                rep.obs("diagnostic:optimised-IR-identical-in-3-processes");
+            } else {
+                rep.obs("diagnostic:optimised-IR-differs-between-processes");
+                if oc.differing == 0 && oc.warnings_in_first > 0 {
+                    rep.obs("diagnostic:IR-differs-but-warnings-identical");
+                }
+            }
+        }
+    }
+    for f in ["long-expression-chain", "jump-into-other-function", "block-listed-in-two-functions", "while", "do-while", "alloc", "recursion", "switch"] {
+        if inp.features.contains(f) {
+            rep.obs(&format!("feature:{f}"));
+        }
+    }
+}
+
+fn run(cfg: &Cfg) -> Report {
+    let env = match cli_env(cfg) {
+        Ok(e) => e,
+        Err(reason) => {
+            let mut rep = Report::new();
+            rep.inconclusive(&reason);
+            return rep;
+        }
+    };
+    let shards = cfg.tier.pick(128usize, 1024usize);
+    let per_shard = cfg.tier.pick(6usize, 5usize);
+    let n = cfg.tier.pick(6usize, 24usize);
+    let ncpu = std::thread::available_parallelism().map(|x| x.get()).unwrap_or(1);
+    let have_taskset = which("taskset");
+    let mut rep = par_shards(cfg, "c23", shards, |idx, rng, rep| {
+        if !have_taskset {
+            rep.inconclusive("taskset-not-installed");
+            return;
+        }
+        for i in 0..per_shard {
+            // an input in flight costs up to 9 runs: stop earlier than the single-run monitors
+            if cfg.elapsed_s() > deadline_s(cfg) - cfg.tier.pick(9.0, 40.0) {
+                rep.obs("skipped-after-deadline");
+                continue;
+            }
+            let opts = gen_opts(rng);
+            let inp = gen_input(rng, &opts);
+            check_input(cfg, &env, &inp, n, idx % ncpu, i % 4 == 0, rng, rep);
+        }
+    });
+    if rep.observed.contains_key("skipped-after-deadline") {
+        rep.note(format!("machine too slow for the full workload: {} inputs skipped after the deadline", rep.observed["skipped-after-deadline"]));
+    }
+    rep
+}
+
+fn replay(cfg: &Cfg, case: &Value) -> Report {
+    let mut rep = Report::new();
+    let env = match cli_env(cfg) {
+        Ok(e) => e,
+        Err(reason) => {
+            rep.inconclusive(&reason);
+            return rep;
+        }
+    };
+    let Some((pcode, elf)) = input_from_case(case) else {
+        rep.note("replay case has no input");
+        return rep;
+    };
+    let Ok(files) = write_input(&pcode, &elf) else {
+        rep.note("cannot write input files");
+        return rep;
+    };
+    let selection: Option<Vec<String>> = case["selection"].as_array().map(|a| a.iter().filter_map(|x| x.as_str().map(String::from)).collect());
+    let n = case["runs"].as_u64().unwrap_or(12) as usize;
+    let mut rng = Rng::derive(cfg.seed, "c23-replay", 0);
+    let (oc, sig) = repeat_runs(&env, &files, &selection, n, 0, None, &mut rng, &mut rep);
+    rep.note(format!("{} of {} runs differ from the first run", oc.differing, oc.completed));
+    if oc.differing > 0 {
+        let (class, _) = sig.unwrap_or_default();
+        let class = class_of(&oc, &class);
+        rep.violation(format!("output-differs:{class}"), if is_known_cwe190(&oc) { Some(KNOWN_EXPRPROP_CWE190) } else { None }, format!("{} of {} runs differ from the first run. {}", oc.differing, oc.completed, oc.first_diff.unwrap_or_default()), case.clone(), pcode.len() as u64);
+    }
+    rep
 }
